@@ -94,4 +94,6 @@ class CircuitUnitary(Unitary):
                 gate.name = "C" + gate.name
                 gate.control = clist
 
-        return new_circuit
+        # Rebuild the circuit so that its width and gate counts describe the controlled gates
+        n_qubits = max(new_circuit._qubits_simulated, max(clist) + 1) if new_circuit._qubits_simulated else None
+        return Circuit(new_circuit._gates, n_qubits=n_qubits)
